@@ -1,9 +1,11 @@
 #!/bin/sh
 # run every check of MANIFEST.json in the given tier (default quick) on /repo; one summary line each
+#   tools/run_all.sh [tier] [NN ...]
 tier=${1:-quick}
+[ $# -gt 0 ] && shift
 cd "$(dirname "$0")/.." || exit 2
 fail=0
-for n in 01 02 03 04 05 06 07 08 09 10 11 12 13 14 15 16 17 18 19; do
+for n in ${*:-01 02 03 04 05 06 07 08 09 10 11 12 13 14 15 16 17 18 19}; do
   out=$(./check C$n --tier "$tier" 2>&1); rc=$?
   echo "C$n rc=$rc $(echo "$out" | grep -E "tier=$tier" | cut -c1-120)"
   if [ $rc -ne 0 ]; then fail=1; echo "$out" | grep -E "VIOLATION|failure key|INCONCLUSIVE|HARNESS" | cut -c1-300 | head -5; fi
